@@ -10,6 +10,7 @@ CONSTANTS
   ClientMayClose = FALSE
   HandlerMayClose = FALSE
   StartMayFail = TRUE
+  SpareFields = FALSE
   SeqRestart = TRUE
   Bug = "none"
   TrackAct = FALSE
